@@ -47,7 +47,11 @@ def install():
             if rec is not None:
                 lab = rec.handler_label.get((id(self), id(handler)))
                 if lab is not None:
-                    rec.exec_owner[(self.name, rec.eid(event), lab)] = rec.par_owner.get((self.name, rec.eid(event)), '?')
+                    # who runs this handler: in serial mode execute_handler runs in the task that called process_event; on a parallel bus it
+                    # runs in a task of its own, so fall back to the innermost process_event still active for this (bus, event)
+                    me = rec.task_label()
+                    stack = rec.par_owner.get((self.name, rec.eid(event))) or ['?']
+                    rec.exec_owner[(self.name, rec.eid(event), lab)] = me if me != 'X' else stack[-1]
                     if not (hasattr(handler, '__self__') and isinstance(handler.__self__, S.EventBus)) and '.expect(' not in getattr(handler, '__name__', ''):
                         # activations are numbered when execute_handler is entered (the model numbers them when the handler task is created)
                         rec.nact += 1
@@ -66,10 +70,15 @@ def install():
                 return await orig(self, event, timeout=timeout)
             owner = rec.task_label()
             e = rec.eid(event)
-            rec.par_owner[(self.name, e)] = owner
+            rec.par_owner.setdefault((self.name, e), []).append(owner)    # the same (bus, event) can be processed re-entrantly (re-dispatch)
             rec.log('ProcB', b=self.name, e=e, owner=owner, n=int(getattr(event, 'n', -1)))
             try:
-                r = await orig(self, event, timeout=timeout)
+                try:
+                    r = await orig(self, event, timeout=timeout)
+                finally:
+                    st = rec.par_owner.get((self.name, e))
+                    if st and owner in st:
+                        st.reverse(); st.remove(owner); st.reverse()
             except asyncio.CancelledError:
                 rec2 = _rec()
                 if rec2 is rec:
